@@ -251,6 +251,10 @@ def run(ctx):
                 'interfaces, the name= / value:label / null-type tokens on the output lines validated by TLC. A case is one question or order.')
     rep.assumptions = list(sessbase.ASSUME) + ['harness/protoextract.py (xml.dom.minidom) reads the XML files correctly; it shares no code with core/wl/protocol.py',
                                                'messages whose descriptions differ between two files of the same interface version are not judged']
+    # decoration of closures as the real plugin in the real gdb reports them (null objects arrive with their declared interface)
+    from props import c15
+    c15.real_gdb_sessions(ctx, rep, rel=relevant('C07'), n=ctx.pick(6, 50), salt=104723, tag='real-gdb-decoration', destroy=0.03,
+                           extra=[c15.null_objects_session(False), c15.null_objects_session(True)])
     # ... and as a real process (file / run mode), compared with the in-process run
     from props import sessbase as _sb
     _sb.process_batch(ctx, rep, ['msg'], ctx.pick(10, 100), 1000457, cmds_after=2, core=False)
